@@ -89,6 +89,10 @@ impl<'a> LongChain<'a> {
     pub fn insert(&mut self, index: usize, cow: CowBytes<'a>) {
         #[cfg(debug_assertions)]
         self.verify_invariants();
+        if cow.is_empty() {
+            // An empty segment holds no bytes; storing it would expose an empty chunk
+            return;
+        }
         self.total_remaining_len += cow.len();
         self.data.insert(index, cow);
     }
@@ -110,6 +114,10 @@ impl<'a> LongChain<'a> {
     pub fn push(&mut self, cow: CowBytes<'a>) {
         #[cfg(debug_assertions)]
         self.verify_invariants();
+        if cow.is_empty() {
+            // An empty segment holds no bytes; storing it would expose an empty chunk
+            return;
+        }
         self.total_remaining_len += cow.len();
         self.data.push(cow);
     }
